@@ -20,7 +20,7 @@ import (
 )
 
 func main() {
-	debug.SetGCPercent(400)
+	debug.SetGCPercent(200)
 	if len(os.Args) < 2 {
 		fmt.Fprintln(os.Stderr, "usage: vf worker|run|check|replay|selftest ...")
 		os.Exit(2)
@@ -48,7 +48,7 @@ func (lf *loadFlags) register(fs *flag.FlagSet) {
 	fs.StringVar(&lf.dir, "dir", "/repo", "module dir")
 	fs.StringVar(&lf.pkg, "pkg", "./iso8601", "package pattern relative to -dir")
 	fs.StringVar(&lf.overlay, "overlay", "", "comma-separated directories whose *.go files are overlaid into the package dir")
-	fs.StringVar(&lf.tags, "tags", "purego,verif", "build tags")
+	fs.StringVar(&lf.tags, "tags", "purego,verif,math_big_pure_go", "build tags")
 }
 
 func runMain(args []string) {
